@@ -42,10 +42,18 @@ MANIFEST = {
             "response), cached_failure_requeues_whole, fresh_substream_runs_queue_in_order, "
             "queue_untouched_by_other_events (a queued response is dropped only by dial failure, open failure, closed "
             "connection, failed open after the dial, a failed call on the fresh substream, or when no substream can be "
-            "had); plus a seeded correspondence run of the real functions (send_response over an in-memory yamux "
+            "had); time (the far end of a substream takes a given virtual time to accept each message; every "
+            "send_framed has its own WRITE_TIMEOUT budget - the constant is read from bitswap/mod.rs -, nothing bounds a "
+            "call, a queue flush or a loop iteration): per_frame_timeout_only (over a far end that accepts every message "
+            "within WRITE_TIMEOUT a call writes all messages of its action however long that takes in total), "
+            "slow_link_flushes_whole_queue (the actions queued during the open / dial are all sent, in order, over such a "
+            "substream and it is cached), frame_over_timeout_fails_call (a message slower than WRITE_TIMEOUT fails its "
+            "call after exactly the messages before it); plus a seeded correspondence run of the real functions (send_response over an in-memory yamux "
             "substream with the codec of the real Config, on_message_received on a real Bitswap instance; the real Bitswap::run() loop with its BitswapHandle and a "
-            "real TransportService, the harness playing connections, dials, substream opens/failures, inbound "
-            "messages and the far ends of the substreams) against the "
+            "real TransportService on a paused tokio clock, the harness playing connections, dials, substream "
+            "opens/failures, inbound messages (whole, in pieces with virtual time in between, or held back across other "
+            "operations) and the far ends of the substreams (failing, stalling, or slow: a virtual delay per message)) "
+            "against the "
             "model and a property-level oracle that recomputes digests with hashlib.",
     "note": "Trusted: Lean kernel; axioms propext/Classical.choice/Quot.sound; the hand-written models and their tie "
             "(sampled differential runs through adapter src/verif/c20.rs); hash functions, prost, cid, multihash, "
@@ -70,7 +78,11 @@ RULE = ("seeded cases of 4-9 operations: prefix_enc/prefix_dec (boundary values,
         "every fifth case (fourth in the thorough tier) is a protocol-level dialogue on the real event loop: responses "
         "and requests over a cached substream that fails or stalls at every message index, over a fresh one, after a "
         "dial, with dial failures, open failures, closed connections, dead command channels, manager-view races, "
-        "queued actions behind a retry, inbound want-lists of every shape (valid v0/v1 CIDs, truncated at any offset, "
+        "queued actions behind a retry, slow but healthy links (every fifth dialogue: a response of 3-5 block messages "
+        "- or a queue of several actions - over a fresh substream, after a dial, over the cached substream, with a "
+        "virtual delay per message of WRITE_TIMEOUT/n+1 .. WRITE_TIMEOUT so that the whole exceeds WRITE_TIMEOUT while no "
+        "message does; in a fifth of them one message is slower than WRITE_TIMEOUT), inbound frames arriving in 2-4 "
+        "pieces with 0 ms .. 10 min between them or held back across other operations, inbound want-lists of every shape (valid v0/v1 CIDs, truncated at any offset, "
         "trailing bytes, bad versions, want types 0..2^31-1), inbound blocks and presences, undecodable / oversized / "
         "closed / reset inbound substreams; "
         "distinct = distinct (ops, observations) transcripts by SHA-256")
@@ -88,7 +100,12 @@ TRUSTED_BASE = ["Lean 4.33 kernel", "axioms: propext, Classical.choice, Quot.sou
 ASSUMPTIONS = ["batching ops: the only write error is the codec's rejection of a frame above its limit (modelled; "
                "send_response aborts the whole response on any write error or timeout); protocol-level ops: a substream "
                "accepts a chosen number of complete messages and then fails (at most two bytes into the next message) or "
-               "stalls until WRITE_TIMEOUT; a failure never corrupts an accepted message",
+               "stalls until WRITE_TIMEOUT, and takes a chosen virtual time (tokio's paused clock) before it accepts the "
+               "first byte of each message - the time of a message is not spread over its bytes; a failure never "
+               "corrupts an accepted message",
+               "time is virtual: the paused tokio clock advances to the next timer only when no task can run, so "
+               "computation takes no time and two timers set for the same instant fire together (a message that takes "
+               "exactly WRITE_TIMEOUT is accepted: tokio's Timeout polls the write first)",
                "protocol level: events are handled one operation at a time (run to quiescence); an inbound message is "
                "either prost-decodable or not (inbad uses payloads that are not); want types are non-negative",
                "oracle, protocol level: 'sent exactly once and in order' is judged per substream (a retry after a write "
@@ -99,6 +116,9 @@ ASSUMPTIONS = ["batching ops: the only write error is the codec's rejection of a
                "usize is 64 bits; sums of block sizes do not overflow",
                "oracle: the node's hash set is within {sha1, sha2, sha3, keccak, blake2b, blake2s, md5}; a block delivered "
                "under any other multihash code cannot be re-hashed by the oracle and is reported",
+               "oracle, slow links: WRITE_TIMEOUT is read from bitswap/mod.rs (its value is not part of the property); a "
+               "substream whose every message takes at most WRITE_TIMEOUT counts as healthy - a response cut short on it "
+               "or lost is reported -, one with a slower message counts as failing",
                "oracle: a block 'fits a message' iff its data is at most 2 MiB (MAX_BATCH_SIZE); the message limit is the "
                "protocol's 4 MiB; both are fixed in the oracle, not read from the repository"]
 KEEP_PREFIX = 0
@@ -943,9 +963,47 @@ def gen_proto_case(rng, tier):
     def resp(p, shape=None):
         emit(f"resp {p} k={kind} {p_response(rng, sim, shape)}")
 
-    family = rng.choice(["cached", "cached", "cached", "fresh", "dial", "walk", "walk", "inbound", "slow", "slow"])
+    family = rng.choice(["cached", "cached", "cached", "fresh", "dial", "walk", "walk", "inbound", "slow", "slow",
+                         "edges", "edges"])
     p = rng.choice([1, 2, 3])
-    if family == "slow":
+    if family == "edges":
+        # short scripts for arms a random dialogue rarely reaches: a request that fails / times out on the fresh
+        # or on the cached substream (with responses queued behind it), events for a substream id the protocol
+        # has forgotten (its connection was closed in between)
+        wt = write_timeout_ms()
+        how = rng.choice(["req-fresh", "req-cached", "stale-open", "stale-fail"])
+        dead = rng.choice(["stall=0", "fail=0", f"slow={wt + 1}", f"slow={2 * wt}", "fail=0.1"])
+        emit(f"conn {p}")
+        if how == "req-fresh":
+            emit(f"req {p} k={kind} {p_wants(rng, sim)}")
+            if rng.random() < 0.6:
+                resp(p, rng.choice(["tiny", "multi"]))          # dropped with the failing request
+            emit(f"subopen s0 {dead}")
+        elif how == "req-cached":
+            resp(p, "tiny")
+            emit("subopen s0")
+            emit(f"plan s0 {dead}")
+            emit(f"req {p} k={kind} {p_wants(rng, sim)}")       # fails over the cached substream, re-queued
+            if rng.random() < 0.5:
+                resp(p, rng.choice(["tiny", "multi"]))
+            if sim.opens:
+                emit(f"subopen s{max(sim.opens)}{slow_token(rng, 3) if rng.random() < 0.3 else ''}")
+        else:
+            resp(p, rng.choice(["tiny", "multi"]))
+            emit(f"disc {p}")
+            if rng.random() < 0.7:
+                emit(f"conn {p}")
+            if rng.random() < 0.5:
+                q = p % 3 + 1
+                emit(f"conn {q}")
+                resp(q, "tiny")                                  # another peer's queue must survive
+            emit("subopen s0" if how == "stale-open" else "subfail s0")
+            for n in sorted(sim.opens):
+                emit(f"subopen s{n}")
+        resp(p, "tiny")
+        if sim.opens:
+            emit(f"subopen s{max(sim.opens)}")
+    elif family == "slow":
         # a slow but healthy link: every message is accepted within WRITE_TIMEOUT, the response (or the
         # queue) takes longer than that as a whole - over the fresh substream, after a dial, over the cached
         # substream; sometimes one message is slower than WRITE_TIMEOUT (that call fails)
@@ -1370,6 +1428,7 @@ class ProtoOracle:
         self.handed_subs = {}        # s<n> -> peer, substreams given to the protocol
         self.dead_subs = set()       # ... whose connection was closed afterwards
         self.held = {}               # i<k> -> tokens of the `inmsg` whose frame is incomplete
+        self.in_alive = {}           # i<k> -> peer: inbound substreams the environment has not ended
 
     def note_excuse(self, p, i):
         self.excuse.setdefault(p, []).append(i)
@@ -1389,6 +1448,7 @@ class ProtoOracle:
         elif op == "disc" and res == "ok":
             p = int(t[1])
             self.connected.discard(p)
+            self.in_alive = {k: q for k, q in self.in_alive.items() if q != p}
             self.note_excuse(p, i)
             self.dead_subs |= {n for n, q in self.handed_subs.items() if q == p}
             self.outstanding = {n: q for n, q in self.outstanding.items() if q != p}
@@ -1433,6 +1493,18 @@ class ProtoOracle:
             self.handed.append(h)
         elif op == "insub" and res.startswith("i"):
             self.in_peer[int(res[1:])] = int(t[1])
+            # (a second inbound substream of a peer replaces the first)
+            self.in_alive = {k: q for k, q in self.in_alive.items() if q != int(t[1])}
+            self.in_alive[int(res[1:])] = int(t[1])
+        elif op in ("inbad", "inbig", "inclose", "inreset"):
+            self.in_alive.pop(int(t[1][1:]), None)
+        elif op in ("inmsg", "inrest") and res == "none":
+            k = int(t[1][1:])
+            if k in self.in_alive and (op == "inrest") == (k in self.held):
+                self.v("inbound-substream-dropped", f"inbound substream i{k} of peer {self.in_alive[k]} was neither closed "
+                       f"nor reset nor replaced, its connection is open and every message on it was well-formed, yet the "
+                       f"protocol no longer reads it (reads have no timeout: a slow remote's want-list is lost)", i)
+                self.in_alive.pop(k, None)
         if calls != "-":
             for c in calls.split(","):
                 w = c.split(":")
